@@ -1,6 +1,7 @@
 //! C13 — fixed-width integer adapters emit exactly size_of bytes in the chosen byte order.
 
 use crate::dynshape::{Shape, Value};
+use crate::iodoubles::{ChunkWriter, Fault, Schedule};
 use crate::refcodec::ref_encode;
 use crate::runner::{fail, hex, no_panic, CaseResult, Ctx, Local, Tier};
 use proptest::prelude::*;
@@ -71,6 +72,45 @@ macro_rules! adapter {
             if via_w.as_deref() != Ok(&want[..]) {
                 return Err(fail("fixint", format!("{}: to_io wrote {:?}", $label, via_w.map(|b| hex(&b))), cj()));
             }
+            // a writer that accepts only a few bytes per call receives the same bytes
+            {
+                let k = 1 + (before as usize % 3);
+                let mut cw = ChunkWriter::new(Schedule { chunks: vec![k, 1, k + 5], interrupt_every: if after % 2 == 0 { 0 } else { 3 } }, Fault::None, false);
+                let r = no_panic(|| postcard::to_io(&v, &mut cw).map(|_| ())).map_err(|p| fail("fixint", format!("to_io panicked: {}", p), cj()))?;
+                if r.is_err() || cw.accepted != want {
+                    return Err(fail("fixint", format!("{}: to_io into a writer taking <= {} bytes per call: {:?}, writer holds {}, expected {}", $label, k + 5, r, hex(&cw.accepted), hex(&want)), cj()));
+                }
+            }
+            // a slice of exactly the encoded length is enough, also when the fixed-width field comes last
+            {
+                #[derive(Serialize)]
+                struct Tail {
+                    head: u16,
+                    #[serde(with = $module)]
+                    x: $t,
+                }
+                let t = Tail { head: after, x };
+                let mut want_t = varint_u16(after);
+                want_t.extend_from_slice(&want[1..1 + N]);
+                for (what, res, expect) in [
+                    ("{before, x, after}", { let mut b = vec![0xEEu8; want.len()]; no_panic(|| postcard::to_slice(&v, &mut b).map(|s| s.to_vec())) }, &want),
+                    ("{head, x}", { let mut b = vec![0xEEu8; want_t.len()]; no_panic(|| postcard::to_slice(&t, &mut b).map(|s| s.to_vec())) }, &want_t),
+                ] {
+                    let res = res.map_err(|p| fail("fixint", format!("to_slice panicked: {}", p), cj()))?;
+                    if res.as_ref() != Ok(expect) {
+                        return Err(fail("fixint", format!("{}: to_slice of {} into a buffer of exactly {} bytes gave {:?}, expected {}", $label, what, expect.len(), res.map(|b| hex(&b)), hex(expect)), cj()));
+                    }
+                }
+                let mut b = vec![0xEEu8; want_t.len() - 1];
+                match no_panic(|| postcard::to_slice(&t, &mut b).map(|s| s.len())) {
+                    Ok(Err(postcard::Error::SerializeBufferFull)) => {}
+                    other => return Err(fail("fixint", format!("{}: to_slice of {{head, x}} into {} bytes (one short) gave {:?}", $label, want_t.len() - 1, other), cj())),
+                }
+                let via_w = no_panic(|| postcard::to_io(&t, Vec::<u8>::new())).map_err(|p| fail("fixint", format!("to_io panicked: {}", p), cj()))?;
+                if via_w.as_deref() != Ok(&want_t[..]) {
+                    return Err(fail("fixint", format!("{}: to_io of {{head, x}} wrote {:?}", $label, via_w.map(|b| hex(&b))), cj()));
+                }
+            }
             // one byte short of the fixed field
             let short = &got[..1 + N - 1];
             match no_panic(|| postcard::from_bytes::<$sname>(short)) {
@@ -140,7 +180,7 @@ pub fn run(ctx: &Ctx) {
         "cases: 16 structs {before: u8, #[serde(with = fixint::le|be)] x: T, after: u16} for T in u16..u128, i16..i128; all 65536 \
          values for the 16-bit types; for wider types every single-non-zero-byte pattern (position x 255), boundaries and \
          bit-length-stratified random values. oracle: bytes == [before] ++ the integer's bytes in the chosen order (extracted by \
-         shifting) ++ varint(after); decode returns the original; a field one byte short is UnexpectedEnd. non-trivial = value \
+         shifting) ++ varint(after); decode returns the original (slice, from_io, from_eio); to_io into a whole-buffer writer and into a writer accepting 1..8 bytes per call (with Interrupted) delivers the same bytes; to_slice into a buffer of exactly the encoded length succeeds also when the fixed-width field is last ({head: u16, x}) and one byte less is SerializeBufferFull; a field one byte short is UnexpectedEnd. non-trivial = value \
          whose little- and big-endian byte strings differ; distinct = hash(adapter, value)",
     );
     let ads = adapters();
